@@ -8,7 +8,8 @@ RES_PIN = json.load(open(sys.argv[4])) if len(sys.argv) > 4 and os.path.exists(s
 ADAPT = {"C01/m3": "C01_m3_string_ceil", "C14/m1": "C01_m3_string_ceil", "C10/m2": "C10_m2_string_nofloor", "C05/m3": "C05_m3_string_size_chars",
          "C06/m3": "C06_m3_vec_validate_all_slots", "C12/m2": "C12_m2_last_by_length", "C13/m3": "C13_m3_push_room_le", "C18/m1": "C18_m1_tag_last",
          "C01/m1": "C01_m1_tag_accepts_n", "C02/m1": "C01_m1_tag_accepts_n", "C10/m1": "C01_m1_tag_accepts_n"} if TAG == "r1" else {}
-MANUAL = {"C08/m1": True, "C08/m2": True, "C08/m3": True} if TAG == "r1" else {}
+MANUAL = {"C08/m1": True, "C08/m2": True, "C08/m3": True} if TAG == "r1" else \
+    ({"C04/m1": True, "C04/m2": True, "C04/m3": True, "C17/m2": True} if TAG == "r2" else {})  # demo layouts the script does not place; run by hand
 out_root = "/verif/seeded"
 summary = []
 for pid in ["C%02d" % i for i in range(1, 21)]:
